@@ -3,6 +3,7 @@
   Property theorems ONLY.  For ALL files, ALL layouts drawn freely per line.
 -/
 import Kapture.Lemmas.C02
+import Kapture.Lemmas.C01Typed
 
 namespace Kapture.C02
 open Kapture.Csv Kapture.C01
@@ -33,6 +34,19 @@ theorem leading_zeros_accepted (k n : Nat) :
   show (readNat (List.replicate k '0' ++ natDigits (n + 1) n)).map (fun m => -(m : Int)) = some (-(n : Int))
   rw [readNat_leading_zeros k n]
   rfl
+
+/-- TYPED reading of a conformant trajectory line: whatever the number of leading zeros on the timestamp (and whichever of the
+  documented layouts the line came in, by `conformant_file_loads`), the reader finds the same integer, the same device and the
+  same pose, missing parts still missing -/
+theorem typed_trajectory_line_leading_zeros {F : Type} (c : Codec F) (h : Lawful c) (k n : Nat) (neg : Bool) (dev : Str) (p : Pose F) :
+    decodeTrajRow c (((if neg then ['-'] else []) ++ (List.replicate k '0' ++ natDigits (n + 1) n)) :: dev :: poseToList c p) =
+      Except.ok ((if neg then -(n : Int) else (n : Int)), dev, p) := by
+  obtain ⟨h1, h2⟩ := leading_zeros_accepted k n
+  cases neg
+  · simp only [Bool.false_eq_true, if_false, List.nil_append, decodeTrajRow, h1, traj_pose_roundtrip c h]
+    rfl
+  · simp only [if_true, List.singleton_append, decodeTrajRow, h2, traj_pose_roundtrip c h]
+    rfl
 
 /-- every file the library writes IS a conformant file: the version line first (a comment), then the column comment, then
   one data line per row with the documented separator; its specification content is the rows written -/
